@@ -188,12 +188,12 @@ def run(tier, seed):
                 k = next(i for i in range(len(pa)) if pa[i] != pb[i])
                 ck.violation('oracle', case, 'paragraph %d lost or changed its paragraph properties / style: %s -> %s' % (k, pa[k], pb[k]))
         if f:
-            code = 0; nn = 0
+            code = 0; nn = 0; xp = 0
             if kind == 'edits' and r is not None:
                 din = A.read(b, table=list(d['rpr_table']))
                 (ml,) = core.run_driver('edits', [docrun.sx_edits_line(din, E.AUTHOR, arg, r['oracle'])])
-                code = int(ml.split('|')[0].split()[2]) if '|' in ml else 0; nn = int(ml.split('|')[0].split()[3]) if '|' in ml else 0
-            ff, kn = J.classify({'outside': code, 'nn': nn}, f)
+                code = int(ml.split('|')[0].split()[2]) if '|' in ml else 0; nn = int(ml.split('|')[0].split()[3]) if '|' in ml else 0; xp = int(ml.split('|')[0].split()[4]) if '|' in ml else 0
+            ff, kn = J.classify({'outside': code, 'nn': nn, 'xp': xp}, f)
             if kn: ck.known(kn[0], kn[1], case)
             else: ck.violation('oracle', case, f)
         # correspondence: predicted part list and main-document relationships
